@@ -61,7 +61,40 @@ def _case(draw):
             if plvl > 0:
                 layout.append(dict(members=[f"e{i}.p"], via="own", level=plvl, state=dict(pdesc)))
     info = S.Info(spec, layout)
-    steps = [draw(S.step(info, ["measure", "measure", "measure", "struct", "trace_out", "op", "kraus", "povm", "comp"])) for _ in range(draw(st.integers(2, 6)))]
+    focks = [f"e{i}.f" for i in range(n_env)]
+    pols = [f"e{i}.p" for i in range(n_env)]
+
+    def pair_step():
+        # actions that name two (or three) equal-valued subsystems of one kind in one call
+        grp = draw(st.sampled_from([focks, focks, pols] + ([[f"c{i}" for i in range(len(customs))]] if len(customs) >= 2 else [])))
+        ts = list(draw(st.permutations(grp))[: draw(st.integers(2, min(3, len(grp))))])
+        what = draw(st.sampled_from(["kraus", "povm", "measure", "measure", "ce_combine", "ce_reorder", "trace_out", "comp", "resize"]))
+        if what == "kraus":
+            return dict(k="kraus", entry="ce0", targets=ts[:2], kseed=draw(S.seeds), nops=draw(st.integers(1, 3)), unitary=False)
+        if what == "povm":
+            return dict(k="povm", entry="ce0", targets=ts[:2], pseed=draw(S.seeds), nops=2, projective=draw(st.booleans()), destructive=draw(st.booleans()), partial=False,
+                        script=draw(st.lists(st.integers(0, 5), max_size=3)))
+        if what == "measure":
+            return dict(k="measure", entry="ce0", targets=ts, sep=draw(st.booleans()), destructive=draw(st.booleans()), script=draw(st.lists(st.integers(0, 5), max_size=4)))
+        if what in ("ce_combine", "ce_reorder"):
+            return dict(k="struct", call=what, ce="ce0", members=ts)
+        if what == "trace_out":
+            return dict(k="trace_out", entry="ce0", targets=ts[:2])
+        if what == "comp":
+            if grp is focks:
+                return dict(k="op", entry="ce0", targets=ts[:2], op=dict(type="comp:BS", params=dict(eta=draw(S.angle))))
+            if grp is pols:
+                return dict(k="op", entry="ce0", targets=ts[:2], op=dict(type="comp:" + draw(st.sampled_from(["CX", "CZ", "SWAP"]))))
+            return dict(k="op", entry="ce0", targets=ts[:2], op=dict(type="comp:Expression", factors=[dict(kind="custom", useed=draw(S.seeds)), dict(kind="custom", useed=draw(S.seeds))]))
+        t = draw(st.sampled_from(focks))
+        return dict(k="resize", entry="ce0", target=t, n=draw(st.integers(1, 5)))
+
+    steps = []
+    for _ in range(draw(st.integers(2, 6))):
+        if draw(st.booleans()):
+            steps.append(pair_step())
+        else:
+            steps.append(draw(S.step(info, ["measure", "measure", "struct", "trace_out", "op", "kraus", "povm", "comp"])))
     return dict(spec=spec, layout=layout, contraction=draw(st.booleans()), steps=steps)
 
 
